@@ -111,6 +111,10 @@ func genCFile(t *rapid.T, path string, setup bool) CFile {
 		f.Lines = append(f.Lines, CLine{K: rapid.SampledFrom([]string{"year", "year", "year-long"}).Draw(t, "yeark"), V: rapid.SampledFrom([]string{"2024", "2021", "2023"}).Draw(t, "inityear")})
 	}
 	n := rapid.IntRange(1, 14).Draw(t, "nlines")
+	if rapid.IntRange(0, 11).Draw(t, "bigfile") == 0 {
+		// the size of a real rule file: hundreds of lines, a version marker in every rule (well above 8 KiB)
+		n = rapid.IntRange(250, 700).Draw(t, "nbiglines")
+	}
 	for i := 0; i < n; i++ {
 		switch k := rapid.IntRange(0, 11).Draw(t, "linek"); {
 		case k <= 1:
@@ -164,6 +168,9 @@ func genC14(t *rapid.T) C14Case {
 	}
 	markers := 0
 	for _, f := range c.Files {
+		if len(f.Lines) > 200 {
+			lab["file-above-8KiB"] = true
+		}
 		for _, l := range f.Lines {
 			if l.K != "other" {
 				markers++
